@@ -1009,7 +1009,9 @@ int main(int argc, char **argv)
 	if(guide) {
 		/* a behaviour of TimeWarpMC: the order of the accesses to memory shared between workers */
 		static const unsigned shared[] = {VP_Q_PUSH, VP_Q_DRAIN, VP_FLAG, VP_ANTI_LOCAL, VP_UNDO, 100, 101}; /* 100/101: fake MPI send/receive */
-		vs_load_guide(guide, shared, 7);
+		static const struct vs_guide_roles roles = {VP_ALLOC, VP_Q_PRECAS, VP_Q_PUSH, VP_Q_DRAIN, VP_EXTRACT, VP_FLAG, VP_ANTI_LOCAL, VP_ANTI_REMOTE, VP_UNDO,
+		    VP_RB_BEGIN, 100, 101};
+		vs_load_guide(guide, shared, 7, &roles);
 	}
 	if(park)
 		vs_park(1, VP_EXTRACT, park); /* the worker with the highest thread id is created first: delay it when it enters its main loop */
